@@ -1329,6 +1329,7 @@ func runC04(c *core.Ctx) core.Meta {
 	checkVOP3bMembership(c, t)
 	checkDstRegisterFile(c, t)
 	checkFlatOpcodes(c, t)
+	checkDSOperands(c, t)
 	checkFieldCoverage(c, core.NewLocalProv(c))
 	checkSRegOperandRange(c)
 
